@@ -1,4 +1,4 @@
-"""C03 -- extract preserves behaviour or is refused (VGC rules R03.1-R03.18)."""
+"""C03 -- extract preserves behaviour or is refused (VGC rules R03.1-R03.20)."""
 from __future__ import annotations
 
 import ast
@@ -6,7 +6,7 @@ from typing import Dict, List, Optional, Set
 
 from .. import vgc as vgc_mod
 from ..cfg import CFG
-from ..core import AnalysisError, call_name, calls_in, is_self_attr, norm, param_names, walk_local
+from ..core import AnalysisError, call_name, calls_in, dotted, is_self_attr, norm, param_names, walk_local
 from ..grammar import BINDS, CONDITIONAL, G, GENERATOR, LOOPS, SCOPES, TARGET_FIELDS
 
 EXPLANATION = (
@@ -25,6 +25,8 @@ EXPLANATION = (
 EXPLANATION += ' R03.16: identifier characters.  R03.17: the loop-carried test sees reads that precede the region in the enclosing loop; loop_depth is lowered as it was raised.'
 EXPLANATION += ' R03.15: a function that remembers its answer under a key reads, in the computation of the remembered value, nothing of its parameters that the key does not contain (followed into the helpers it calls).'
 EXPLANATION += " R03.18: in the anchored modules and the shared text utilities no source text is cut with str.splitlines() (it breaks at form feed, \x1c-\x1e, \x85, U+2028/9; rope's and the ast's line numbers count \n only)."
+EXPLANATION += " R03.19: program text that is moved is not whitespace-normalised (the result of `\" \".join(text.split())` is only ever compared, never emitted)."
+EXPLANATION += " R03.20: the return-is-last test behind the refusal does not look through a try statement that has handlers."
 ASSUMPTIONS = [
     "the break/continue finder lacking AsyncFor and the missing scope cuts of the return counter only cause over-refusal, which the property allows: recorded as exceptions, not armed (R03.5 arms only the under-refusal direction: else clauses)",
     "IfExp/BoolOp conditional evaluation matters only with a walrus inside: not armed",
@@ -489,6 +491,10 @@ def check(ctx, res) -> None:
     from .common import line_model_rule as _lm
 
     _lm(ctx, res, "R03.18", ('rope.refactor.extract', 'rope.refactor.similarfinder', 'rope.refactor.suites', 'rope.refactor.sourceutils', 'rope.refactor.usefunction'))
+    from .common import no_whitespace_normalisation_rule as _wn
+
+    _wn(ctx, res, "R03.19", ('rope.refactor.extract', 'rope.refactor.sourceutils', 'rope.refactor.similarfinder', 'rope.refactor.usefunction'))
+    _return_last_is_not_seen_through_a_handler_rule(ctx, res)
 
 
 def _loop_carried_reads_rule(ctx, res) -> None:
@@ -561,3 +567,28 @@ def _loop_carried_reads_rule(ctx, res) -> None:
             "loop_depth is lowered under the condition it was raised under" if paired else
             "loop_depth is raised only for a loop that starts before the region but lowered after EVERY loop: a loop inside (or after) the region takes the depth "
             "to zero or below while the enclosing loop is still open, and a loop-carried variable written after it is not returned", function=lc.qualname)
+
+
+def _return_last_is_not_seen_through_a_handler_rule(ctx, res) -> None:
+    """R03.20: a region with a `return` is extracted as `return helper(...)` only if the return is the LAST thing the region does on every
+    path; otherwise the request is refused ("Return should be the last statement").  The test behind that refusal may look through
+    a trailing block that runs its body in place (`with`, `try/finally`), never through a `try` with HANDLERS: when the body raises
+    the handled exception the region falls through to the code after it, which `return helper(...)` skips.  In the function(s)
+    the refusal consults, an `isinstance(..., ast.Try)` that leads into the block's body goes with a test of `.handlers`."""
+    idx = ctx.idx
+    cands = [f for f in idx.functions.values() if f.unit.modname in ("rope.refactor.extract", "rope.refactor.usefunction") and "returns_last" in f.name]
+    if not cands:
+        raise AnalysisError("anchor=the return-is-last test (extract / usefunction) not found")
+    n = 0
+    for f in sorted(cands, key=lambda f: f.qualname):
+        n += 1
+        tries = [c for c in ast.walk(f.node) if isinstance(c, ast.Call) and call_name(c) == "isinstance" and len(c.args) == 2 and any(
+            (dotted(e) or "").split(".")[-1] in ("Try", "TryStar") for e in (c.args[1].elts if isinstance(c.args[1], ast.Tuple) else [c.args[1]]))]
+        reads_handlers = any(isinstance(x, ast.Attribute) and x.attr == "handlers" for x in ast.walk(f.node))
+        ok = not tries or reads_handlers
+        res.add("R03.20", f"{f.qualname.split('.', 2)[-1]}|no-look-through-a-try-with-handlers", ok, f.where,
+                "the test does not descend into a try statement (or looks at its handlers)" if ok else
+                f"`{ast.unparse(tries[0])[:70]}` lets the return-is-last test descend into the body of a `try` without looking at its handlers: a region that ends with `try: ...; return x` "
+                "/ `except KeyError: pass` is accepted and replaced by `return helper(...)` -- on the exception path the function now returns None instead of running the statements "
+                "after the region", function=f.qualname)
+    res.floor("R03.20", "return-is-last tests", n, 1)
